@@ -67,6 +67,9 @@ pub struct ChainSt {
     pub auth_may: bool,
     /// why the chain ended here (not followed / error / unwritable), if it did
     pub ended: Option<String>,
+    /// some hop so far went to another host than the request before it: a Host header the caller had
+    /// put on the original request does not travel there (it is derived from the URI from then on)
+    pub host_dropped: bool,
 }
 
 pub struct HeadOut {
@@ -199,7 +202,7 @@ impl ChainSt {
         let f = cfg.req.build_prepare()?;
         let cur = uri3986::split(&cfg.req.uri);
         let method = cfg.req.method.clone();
-        Ok(ChainSt { cfg, hop: 0, flow: Some(f), cur, method, auth_may: true, ended: None })
+        Ok(ChainSt { cfg, hop: 0, flow: Some(f), cur, method, auth_may: true, ended: None, host_dropped: false })
     }
 
     fn k(&self, c: &str) -> String {
@@ -341,13 +344,14 @@ impl Sys for ChainSt {
 
     fn key(&self) -> String {
         format!(
-            "hop={}|{}|cur={}|m={}|auth={}|ended={:?}",
+            "hop={}|{}|cur={}|m={}|auth={}|ended={:?}|hd={}",
             self.hop,
             self.flow.as_ref().map(|f| f.verif_fingerprint()).unwrap_or_default(),
             uri3986::to_string(&self.cur),
             self.method,
             self.auth_may,
-            self.ended
+            self.ended,
+            self.host_dropped
         )
     }
 
@@ -463,6 +467,10 @@ impl Sys for ChainSt {
                 let orig = uri3986::components(&uri3986::split(&self.cfg.req.uri)).map_err(|e| (self.k("harness"), e))?;
                 let tc = uri3986::components(&t).unwrap();
                 self.auth_may = redirect::may_keep_auth(a.same_host, &orig.scheme, &orig.host, &tc.scheme, &tc.host);
+                let prev_host = uri3986::components(&self.cur).map(|c| c.host).unwrap_or_default();
+                if !prev_host.eq_ignore_ascii_case(&tc.host) {
+                    self.host_dropped = true;
+                }
                 // canonical model URI: what the reference says, normalised the way both sides agree on components
                 self.cur = t;
                 if self.cur.path.is_empty() {
